@@ -960,16 +960,32 @@ def _build(sh, ode, cls, s, case, tags, **kw):
         return None
 
 
+_FORDER = [0]
+
+
 def _fsolve(sh, obj, F, freq, incrb, rfdo, case, tags, where, singular_ok=False):
     """fsolve with every exception turned into a violation.  singular_ok: the oracle
     found an exactly singular / refused column in this call (undamped resonance hit
     exactly); a LinAlgError is then the legitimate outcome and "singular" is returned."""
     import numpy as np
+    # the force as the caller holds it: C- or Fortran-ordered (a spectrum stored
+    # frequency-major and passed as .T); fsolve must leave it and `freq` untouched
+    _FORDER[0] += 1
+    Fin = np.asfortranarray(F.copy()) if _FORDER[0] % 3 == 0 else F.copy()
+    fin = freq.copy()
     try:
         with warnings.catch_warnings():
             warnings.simplefilter("ignore")
             with np.errstate(all="ignore"):
-                return obj.fsolve(F.copy(), freq.copy(), incrb=incrb, rf_disp_only=rfdo)
+                out = obj.fsolve(Fin, fin, incrb=incrb, rf_disp_only=rfdo)
+        sh.count("mon:fsolve-inputs-unmutated")
+        if not np.array_equal(Fin, F) or not np.array_equal(fin, freq):
+            sh.violation("fsolve-inputs-unmutated", case,
+                         {"force_changed": bool(not np.array_equal(Fin, F)),
+                          "freq_changed": bool(not np.array_equal(fin, freq)),
+                          "fortran_order": bool(Fin.flags.f_contiguous
+                                                and not Fin.flags.c_contiguous)}, tags)
+        return out
     except np.linalg.LinAlgError as e:
         if singular_ok:
             return "singular"
@@ -1468,7 +1484,7 @@ def run_shard(sh, params):
 
 
 MANDATORY_MON = [
-    "su-oracle-d", "su-oracle-v", "su-oracle-a", "fd-oracle-d", "fd-oracle-v",
+    "fsolve-inputs-unmutated", "su-oracle-d", "su-oracle-v", "su-oracle-a", "fd-oracle-d", "fd-oracle-v",
     "fd-oracle-a", "su-vs-fd-d", "su-vs-fd-v", "su-vs-fd-a", "residual-dyn",
     "residual-rf", "v-eq-iWd", "a-eq-mW2d", "rb-excluded-zero", "rf-excluded-zero",
     "rb-zero-hz-zero", "psd", "rms", "rms-of-reported-psd", "fd-0hz-linalgerror",
